@@ -314,6 +314,7 @@ var collDefs = []collDef{
 	// untyped constant bound: with `=` and a typed variable the constant takes the variable's type
 	{kind: "int", kt: "uint8", vt: "", lit: `3`, n: 3, rangeExpr: "3"},
 	{kind: "int", kt: "int64", vt: "", lit: `2`, n: 2, rangeExpr: "1 + 1"},
+	{kind: "int", kt: "tr.MyInt", vt: "", lit: `2`, n: 2, rangeExpr: "2"}, // named integer type, constant bound
 	{kind: "int", kt: "uint64", vt: "", lit: `uint64(1)<<63 + 5`, n: 3, hugeBound: true},
 	{kind: "int", kt: "uint", vt: "", lit: `^uint(0)`, n: 3, hugeBound: true},
 }
